@@ -217,6 +217,19 @@ def rule_conserve(rep, R):
             for nm_, aa_ in u_.get("in_chain", []):
                 if nm_ == "take" and aa_:
                     chunks_e = aa_[0]
+    sliced_blocks = False
+    if chunks_e is None:
+        # the same block count written as a slice bound: input_buffers[chan][..K * fft_size_in].chunks(fft_size_in)
+        for l_ in m["loops"]:
+            for u_ in l_["units"]:
+                ib_ = u_.get("in_base")
+                if isinstance(ib_, dict) and ib_.get("k") == "index" and ib_["i"].get("k") == "range" and ib_["i"].get("lo") is None and isinstance(ib_["i"].get("hi"), dict):
+                    h_ = ib_["i"]["hi"]
+                    if h_.get("k") == "bin" and h_["op"] == "*":
+                        for u2_, v2_ in ((h_["l"], h_["r"]), (h_["r"], h_["l"])):
+                            if nbit(v2_) == "self.fft_size_in":
+                                chunks_e = u2_
+                                sliced_blocks = True
     if saved2 is None or chunks_e is None:
         raise AnchorMissing("FftFixedIn: saved_frames store / block count of the unit loop (.take(K))")
     C = sp.Symbol("chunks", **INTSYM)
@@ -277,7 +290,8 @@ def rule_conserve(rep, R):
         ic = dict(u["in_chain"])
         oc = dict(u["out_chain"])
         ok = (self_field_root(u["in_base"]) == "input_buffers" and "chunks" in ic and sp.simplify(alg.conv(ic["chunks"][0]) - FI) == 0
-              and "take" in ic and sp.simplify(alg.conv(ic["take"][0]).subs(cs, C) - C) == 0
+              and (("take" in ic and sp.simplify(alg.conv(ic["take"][0]).subs(cs, C) - C) == 0) or
+                   (sliced_blocks and u["in_base"].get("k") == "index" and sp.simplify(alg.conv(u["in_base"]["i"]["hi"]).subs(cs, C) - C * FI) == 0))
               and "chunks_mut" in oc and sp.simplify(alg.conv(oc["chunks_mut"][0]) - FO) == 0)
         detail = "units: in %s out %s" % (u["in_chain"] and [(n, [show(a) for a in aa]) for n, aa in u["in_chain"]], [(n, [show(a) for a in aa]) for n, aa in u["out_chain"]])
     rep.ob(R, "FftFixedIn/units", ok, detail + " (must be input_buffers.chunks(fft_size_in).take(chunks) -> wave_out.chunks_mut(fft_size_out))", loc(fn))
